@@ -33,6 +33,9 @@ type c15Job struct {
 	// CustomUpper: the schema is created with a caller's extension, built the documented way
 	// (Merge(CommonCustomFuncs, OmniV21CustomFuncs, own)), whose own 'upper' only capitalises the first letter
 	CustomUpper bool
+	// CustomUpperAny: a caller's extension whose 'upper' takes any value (interface{}) and says "ABSENT" when it
+	// is given none - another SIGNATURE under the name of a builtin
+	CustomUpperAny bool
 }
 
 func c15Jobs() []c15Job {
@@ -116,6 +119,9 @@ func c15Jobs() []c15Job {
 			Input: `[{"a":"1","b":"2","c":"3"},{"a":"4","b":"5","c":"6"}]`},
 		c15Job{Name: "upper-with-callers-extension", Schema: upperSchema, Input: "alice\nBOB\n", CustomUpper: true},
 		c15Job{Name: "upper-with-builtin-extension", Schema: upperSchema, Input: "alice\nBOB\n"},
+		// rows with an empty value: the argument is absent - "" for a string parameter, nil for interface{}
+		c15Job{Name: "upper-any-with-callers-extension", Schema: upperSchema, Input: "alice\n\"\"\nBOB\n", CustomUpperAny: true},
+		c15Job{Name: "upper-with-builtin-extension-absent-values", Schema: upperSchema, Input: "alice\n\"\"\nBOB\n"},
 	)
 	// typed external properties: the same schema text with different property values (a long-lived
 	// process keeps ONE Schema object and creates a Transform per input)
@@ -137,7 +143,7 @@ var c15Schemas map[string]omniparser.Schema
 
 func c15RunJob(j c15Job) []string {
 	var schema omniparser.Schema
-	key := fmt.Sprint(j.CustomUpper) + j.Schema
+	key := fmt.Sprint(j.CustomUpper, j.CustomUpperAny) + j.Schema
 	if s, ok := c15Schemas[key]; ok {
 		schema = s
 	} else {
@@ -148,6 +154,16 @@ func c15RunJob(j c15Job) []string {
 					return s, nil
 				}
 				return strings.ToUpper(s[:1]) + s[1:], nil
+			}}
+			exts = append(exts, omniparser.Extension{CreateSchemaHandler: omniv21.CreateSchemaHandler,
+				CustomFuncs: customfuncs.Merge(customfuncs.CommonCustomFuncs, v21cf.OmniV21CustomFuncs, own)})
+		}
+		if j.CustomUpperAny {
+			own := customfuncs.CustomFuncs{"upper": func(_ *transformctx.Ctx, v interface{}) (string, error) {
+				if v == nil {
+					return "ABSENT", nil
+				}
+				return strings.ToUpper(fmt.Sprint(v)), nil
 			}}
 			exts = append(exts, omniparser.Extension{CreateSchemaHandler: omniv21.CreateSchemaHandler,
 				CustomFuncs: customfuncs.Merge(customfuncs.CommonCustomFuncs, v21cf.OmniV21CustomFuncs, own)})
@@ -555,11 +571,12 @@ func init() {
 	core.Register(&core.Prop{
 		ID:    "C15",
 		Level: "exploration",
-		Rule:  "jobs = 19 (schema, input, externals) triples covering all seven formats, templates, xpath_dynamic, javascript(_with_context), copy, uuidv3, date-time functions, XML namespaces incl. one URI bound twice, typed external properties (one schema text, three property sets), dotted sibling object keys failing together, a script that throws while holding arguments and one that looks for globals it was not given, the same schema under the built-in extension and under a caller's extension that overrides 'upper'; histories are run both with every job parsing its schema anew and with jobs of equal schema text sharing ONE Schema object; every history of up to 2 (thorough 3) earlier jobs followed by a probe job is run in one process (pools and caches warm, ID counter advanced; state reset only between histories) and the probe's full transcript (bytes, checksums, raw records, errors) must equal the transcript of the same job in a FRESH process (3 fresh subprocesses per job, which must also agree with each other); no emitted record may contain a UUID-shaped string that is not in the input (declaration hashes are UUIDs); checksums: every pair from a per-format record alphabet (equal content, one value changed, shape changed) must have equal checksums iff the records are equal; the same long inputs of multi-line records (5 items) handed over at once and in pieces of 1000 / 100 / 7 bytes give the same transcript; every XML record of up to 5 (thorough 6) elements over two names and three texts (no attributes, no mixed content), all in one document: records of different content (up to the order of differently named siblings) never share a checksum; distinct by (history, probe) / (format, record pair); further jobs: scripts with top-level declarations, scripts changing the global object / builtin objects (known finding), script enumerating an object argument, union xpath in an array, data-driven call depth",
+		Rule:  "jobs = 19 (schema, input, externals) triples covering all seven formats, templates, xpath_dynamic, javascript(_with_context), copy, uuidv3, date-time functions, XML namespaces incl. one URI bound twice, typed external properties (one schema text, three property sets), dotted sibling object keys failing together, a script that throws while holding arguments and one that looks for globals it was not given, the same schema under the built-in extension, under a caller's extension that overrides 'upper', and under one that binds 'upper' to another SIGNATURE (interface{} parameter, rows with absent values); histories are run both with every job parsing its schema anew and with jobs of equal schema text sharing ONE Schema object; every history of up to 2 (thorough 3) earlier jobs followed by a probe job is run in one process (pools and caches warm, ID counter advanced; state reset only between histories) and the probe's full transcript (bytes, checksums, raw records, errors) must equal the transcript of the same job in a FRESH process (3 fresh subprocesses per job, which must also agree with each other); no emitted record may contain a UUID-shaped string that is not in the input (declaration hashes are UUIDs); checksums: every pair from a per-format record alphabet (equal content, one value changed, shape changed) must have equal checksums iff the records are equal; the same long inputs of multi-line records (5 items) handed over at once and in pieces of 1000 / 100 / 7 bytes give the same transcript; every XML record of up to 5 (thorough 6) elements over two names and three texts (no attributes, no mixed content), all in one document: records of different content (up to the order of differently named siblings) never share a checksum; distinct by (history, probe) / (format, record pair); further jobs: scripts with top-level declarations, scripts changing the global object / builtin objects (known finding), script enumerating an object argument, union xpath in an array, data-driven call depth",
 		Assumptions: []string{
 			"Go map iteration order cannot be enumerated: order dependence is exposed only through repetition (every probe runs at least 100 times across histories), which is stated here rather than claimed exhaustive",
 			"the `now` function and scripts drawing randomness are excluded by the property",
 		},
+		BudgetQuick: 400,
 		Run: func(c *core.Ctx) {
 			jobs := c15Jobs()
 			base := map[string][]string{}
